@@ -34,6 +34,8 @@ fn plan(tier: Tier) -> Vec<Workload> {
         Workload::new("text", tier.pick(100_000, 2_000_000) / BATCH),
         // the ranges the analyzer hands to its consumers (language server, CLI) for each file line
         Workload::new("analyzer", tier.pick(60_000, 1_200_000) / 256),
+        // where the interpreter says a line failed to tokenize (message, line shown, caret) must not depend on what failed before
+        Workload::new("error_position", tier.pick(20_000, 400_000) / 64),
     ]
 }
 
@@ -280,6 +282,80 @@ fn run_case(ctx: &Ctx, index: u64, rep: &mut Report) {
             }
             rep.evaluations += 255;
         }
+        "error_position" => {
+            use crate::drive::{Op, Res, Session};
+            let mut rng = ctx.rng(index);
+            for _ in 0..64 {
+                // a line that does not tokenize
+                let bad = loop {
+                    let mut l = if rng.coin() { toks::join(&toks::random_pieces(&mut rng, 6)) } else { crate::gen::text::random_line(&mut rng, 12) };
+                    l.push_str(rng.s(&[" %", " \"open", " 1..2", " é", ""]));
+                    if l.contains('\n') || l.contains('\r') {
+                        continue;
+                    }
+                    // (a line whose first word is an immediate-mode command is not tokenized at all)
+                    let first_word = l.split_whitespace().next().unwrap_or("").to_uppercase();
+                    if ["RUN", "LIST", "NEW", "CONT", "TRACE", "NOTRACE", "INTERNALS", "STATS"].contains(&first_word.as_str()) {
+                        continue;
+                    }
+                    let l = if rng.chance(1, 4) { format!("{} {}", 10 * (1 + rng.below(5)), l) } else { l };
+                    let skip = abasic_core::verif_hooks::parse_line_number(&l).map(|x| x.1).unwrap_or(0);
+                    if let Err(e) = tokenize(&l, skip) {
+                        break (l, e);
+                    }
+                };
+                let (line, hook_err) = bad;
+                let mut fresh = Session::new();
+                fresh.keep_log = false;
+                let want = fresh.call(Op::Line(line.clone())).res.clone();
+                // the same line after a history that ended in a run-time error (in a program line, or in a typed line)
+                let mut used = Session::new();
+                used.keep_log = false;
+                match rng.below(3) {
+                    0 => {
+                        used.call(Op::Line("10 PRINT 1".into()));
+                        used.call(Op::Line("20 PRINT 1 : PRINT 1 / 0".into()));
+                        used.run_line("RUN", 20);
+                    }
+                    1 => {
+                        used.run_line("PRINT 1 : X = \"s\"", 10);
+                    }
+                    _ => {
+                        used.call(Op::Line("10 FOR I = 1 TO 3 : GOSUB 100".into()));
+                        used.call(Op::Line("100 RETURN : RETURN".into()));
+                        used.run_line("RUN", 40);
+                        used.run_line("GOTO 999", 5);
+                    }
+                }
+                used.settle();
+                if used.poisoned {
+                    continue;
+                }
+                let got = used.call(Op::Line(line.clone())).res.clone();
+                let view = |r: &Res| match r {
+                    Res::Err(e) => format!("{} | line {:?} | {:?}", e.display, e.line, e.caret),
+                    other => format!("{:?}", other.outcome()),
+                };
+                rep.count("error_position.lines");
+                match (&want, &got) {
+                    (Res::Err(w), Res::Err(_)) => {
+                        if view(&want) != view(&got) {
+                            ctx.violation(rep, "C13", "error-position-depends-on-history", index,
+                                format!("line {:?} does not tokenize ({} at {:?}); a fresh interpreter reports {}; after an earlier run-time error the interpreter reports {}",
+                                    line, hook_err.kind, hook_err.range, view(&want), view(&got)), json!({"line": line}));
+                        } else if w.line.is_some() {
+                            ctx.violation(rep, "C13", "tokenization-error-names-a-program-line", index,
+                                format!("line {:?} does not tokenize, yet the error names program line {:?}", line, w.line), json!({"line": line}));
+                        }
+                    }
+                    _ => {
+                        ctx.violation(rep, "C13", "untokenizable-line-accepted", index,
+                            format!("line {:?} does not tokenize ({}), but entering it gave {} (fresh) / {} (used)", line, hook_err.kind, view(&want), view(&got)), json!({"line": line}));
+                    }
+                }
+            }
+            rep.evaluations += 63;
+        }
         other => panic!("unknown workload {}", other),
     }
 }
@@ -291,13 +367,14 @@ fn finalize(tier: Tier, rep: &mut Report) -> Finalize {
     Finalize {
         rule: format!(
             "enum: every concatenation of 1..={} atoms from a {}-atom alphabet (keywords, operators, identifiers incl. keyword-bearing ones, numerals, string literals, blanks, REM, DATA forms, multi-byte and illegal characters, an unpaired quote); \
-             random: G-tok lines of up to 14 atoms, a third with a line-number prefix; text: arbitrary UTF-8 lines; analyzer: files of 1-5 lines (indentation, odd line numbers, trailing blanks / CR) through SourceFileAnalyzer: the token ranges it reports per file line and the range it maps a tokenization error to must equal the tokenizer's on that line. A case is one line; it is non-trivial when at least 2 tokens were range-checked and the line contains a blank or a multi-byte character; distinct by hash of the line text (lower bound: hash recording is capped per worker).",
+             random: G-tok lines of up to 14 atoms, a third with a line-number prefix; text: arbitrary UTF-8 lines; error_position: a line that does not tokenize is entered into a fresh interpreter and into one whose last statement ended in a run-time error: message, line named and caret lines must be identical and name no program line; analyzer: files of 1-5 lines (indentation, odd line numbers, trailing blanks / CR) through SourceFileAnalyzer: the token ranges it reports per file line and the range it maps a tokenization error to must equal the tokenizer's on that line. A case is one line; it is non-trivial when at least 2 tokens were range-checked and the line contains a blank or a multi-byte character; distinct by hash of the line text (lower bound: hash recording is capped per worker).",
             enum_len(tier), n),
         floors: vec![
             ("lines_tokenized".into(), 50_000),
             ("lines_failed".into(), 5_000),
             ("tokens_checked".into(), 200_000),
             ("analyzer.tokens_checked".into(), 100_000),
+            ("error_position.lines".into(), 15_000),
             ("analyzer.error_ranges_checked".into(), 2_000),
             ("analyzer.files_with_indented_line".into(), 5_000),
             ("distinct_nontrivial".into(), 10_000),
